@@ -28,16 +28,16 @@ import (
 )
 
 type GroupResult struct {
-	Group     string   `json:"group"`
-	Files     []string `json:"files"`     // proto files requested
-	GoPkgs    []string `json:"gopkgs"`    // go import paths generated
-	Written   []string `json:"written"`   // paths written relative to module root
-	Error     string   `json:"error"`     // plugin response error
-	Crash     string   `json:"crash"`     // process-level failure (exit code, stderr)
-	Tags      []string `json:"tags"`
-	ReqPath   string   `json:"req_path"`  // serialized request (replay)
-	Messages  []string `json:"messages"`  // full names of all messages (non map-entry)
-	Stderr    string   `json:"stderr,omitempty"`
+	Group    string   `json:"group"`
+	Files    []string `json:"files"`   // proto files requested
+	GoPkgs   []string `json:"gopkgs"`  // go import paths generated
+	Written  []string `json:"written"` // paths written relative to module root
+	Error    string   `json:"error"`   // plugin response error
+	Crash    string   `json:"crash"`   // process-level failure (exit code, stderr)
+	Tags     []string `json:"tags"`
+	ReqPath  string   `json:"req_path"` // serialized request (replay)
+	Messages []string `json:"messages"` // full names of all messages (non map-entry)
+	Stderr   string   `json:"stderr,omitempty"`
 }
 
 func die(f string, a ...any) {
